@@ -13,6 +13,9 @@ The Earth's positions come from the generated wrappers `Earth_geometric_heliocen
 import Pymeeus.Gen.@K@.VsopPlanets
 namespace Pymeeus.Gen@K@
 open Pymeeus Pymeeus.P@K@
+/- everything of C07-C09 lives in the sub-namespace `Helio`, so that the Python names used here
+   (`kepler_equation`, `ecliptical2equatorial`, `mean_obliquity`, …) cannot clash with other templates -/
+namespace Helio
 
 /-! ### Obliquity of the ecliptic (Coordinates.py:235, 302) -/
 
@@ -224,4 +227,5 @@ def longitude_mean_ascending_node (jde : Num) : Num :=
   -- Omega = Angle(Omega).to_positive()
   angToPositive (angOfDeg omega)
 
+end Helio
 end Pymeeus.Gen@K@
